@@ -178,6 +178,12 @@ func (w *Worker) binop(s *State, op token.Token, xt types.Type, xv, yv Value, yt
 				name = "bvurem"
 			}
 		}
+		if x.Const && x.U == 0 {
+			return x // 0 / y and 0 % y are 0 (y != 0 on this path)
+		}
+		if !y.Const && w.cfg.concrete == nil {
+			return w.absDiv(s, name, x, y)
+		}
 		return tc.bvBin(name, x, y)
 	case token.AND:
 		return tc.bvBin("bvand", x, y)
@@ -358,4 +364,37 @@ func (w *Worker) convert(s *State, v Value, from, to types.Type) Value {
 		return v
 	}
 	panic(unsupported{"conversion " + from.String() + " -> " + to.String()})
+}
+
+// absDiv abstracts a division/remainder with symbolic dividend and divisor by an uninterpreted
+// function constrained by lemmas that hold for the exact operation (valid bit-vector facts for
+// non-negative dividend and positive divisor). unsat answers carry over to the exact semantics;
+// a sat answer to a property query is re-asked with the exact definition (doAssert).
+func (w *Worker) absDiv(s *State, name string, x, y *Term) *Term {
+	tc := w.tc
+	exact := tc.bvBin(name, x, y)
+	if name != "bvsdiv" && name != "bvudiv" {
+		return exact
+	}
+	q := tc.UF("abs_"+name, x.Sort, x, y)
+	W := x.Sort.W
+	zero, one := tc.BV(W, 0), tc.BV(W, 1)
+	var pre *Term
+	le := "bvsle"
+	lt := "bvslt"
+	if name == "bvudiv" {
+		pre = tc.Cmp("bvult", zero, y)
+		le, lt = "bvule", "bvult"
+	} else {
+		pre = tc.And(tc.Cmp("bvsle", zero, x), tc.Cmp("bvslt", zero, y))
+	}
+	lem := tc.And(
+		tc.Implies(pre, tc.And(tc.Cmp(le, zero, q), tc.Cmp(le, q, x))),
+		tc.Implies(tc.And(pre, tc.Cmp(lt, x, y)), tc.Eq(q, zero)),
+		tc.Implies(tc.And(pre, tc.Cmp(le, y, x)), tc.Cmp(le, one, q)),
+		tc.Implies(tc.Eq(y, one), tc.Eq(q, x)),
+	)
+	s.pc = s.pc.push(lem)
+	s.abst = &absRec{uf: q, exact: exact, prev: s.abst}
+	return q
 }
